@@ -63,8 +63,10 @@ def _record(item):
     import uts.thresholding as th
     cid, P, what = item
     P = np.asarray(P, float)
-    x, y = P[:, 0], P[:, 1]
+    x, y = P[:, 0], P[:, 1]            # criteria are computed from the float64 values
     n = len(P)
+    PC = P.astype(np.int64) if cid.startswith("i") else P      # what the detector is called with
+    xc, yc = PC[:, 0], PC[:, 1]
     out = []
     meta = {"points": P.tolist(), "what": what}
     B, W = 3000 * n + 20000, 30
@@ -81,13 +83,13 @@ def _record(item):
         return c
 
     if what == "curvature":
-        c = base("argopt", monitor.call(cu.knee, (P,), budget=B, wall=W))
+        c = base("argopt", monitor.call(cu.knee, (PC,), budget=B, wall=W))
         g1, g2 = grad.cfd(x, y), grad.csd(x, y)
         crit = np.absolute(g2) / ((1.0 + g1 ** 2.0) ** 1.5)
         r = [-1] + _ranks(crit[1:-1]) + [-1]
         c.update(det="curvature", sense="max", lo=1, hi=n - 2, rank=r)
     elif what == "menger":
-        c = base("argopt", monitor.call(me.knee, (P,), budget=B, wall=W), lo_ok=0)
+        c = base("argopt", monitor.call(me.knee, (PC,), budget=B, wall=W), lo_ok=0)
         crit = [0.0]
         for i in range(1, n - 1):
             f, g, h = P[i - 1], P[i], P[i + 1]
@@ -97,12 +99,12 @@ def _record(item):
         crit.append(0.0)
         c.update(det="menger", sense="max", lo=0, hi=n - 1, rank=_ranks(crit))
     elif what == "dfdt_get":
-        c = base("argopt", monitor.call(df.get_knee, (x, y), budget=B, wall=W))
+        c = base("argopt", monitor.call(df.get_knee, (xc, yc), budget=B, wall=W))
         g = grad.cfd(x, y)
         d = np.absolute(g - th.isodata(g))
         c.update(det="dfdt.get_knee", sense="min", lo=1, hi=n - 2, rank=[-1] + _ranks(d[1:-1]) + [-1])
     elif what == "dfdt":
-        c = base("dfdt", monitor.call(df.knee, (P,), budget=B, wall=W))
+        c = base("dfdt", monitor.call(df.knee, (PC,), budget=B, wall=W))
         g = grad.cfd(x, y)
         G = []
         for cut in range(0, n):
@@ -115,7 +117,7 @@ def _record(item):
         c["G"] = G
     elif what[0] == "lget":
         fit, cost = lm.Fit(what[1]), lm.Cost(what[2])
-        c = base("argopt", monitor.call(lm.get_knee, (x, y, fit, cost), budget=B, wall=W), lo_ok=2, hi_ok=n - 3)
+        c = base("argopt", monitor.call(lm.get_knee, (xc, yc, fit, cost), budget=B, wall=W), lo_ok=2, hi_ok=n - 3)
         length = x[-1] - x[0]
         E = [_lerr(x, y, i, what[1], what[2]) for i in range(2, n - 2)]
         lib = [float(lm.compute_error(x, y, i, length, fit, cost)[0]) for i in range(2, n - 2)]
@@ -125,7 +127,7 @@ def _record(item):
                  rank=[-1, -1] + _ranks(E) + [-1, -1])
     else:  # ("lknee", fit, mode, limit)
         fit, mode, limit = lm.Fit(what[1]), lm.Refinement(what[2]), what[3]
-        c = base("lknee", monitor.call(lm.knee, (P, fit, mode, limit), budget=B, wall=W), lo_ok=1)
+        c = base("lknee", monitor.call(lm.knee, (PC, fit, mode, limit), budget=B, wall=W), lo_ok=1)
         A = []
         for cut in range(0, n + 1):
             xp, yp = x[0:cut + 1], y[0:cut + 1]
@@ -163,6 +165,9 @@ def inputs(ctx):
                 continue
             items.append(("d%d" % k, P.tolist(), w))
             k += 1
+            if np.all(P == np.floor(P)) and np.all(np.abs(P) < 2 ** 40) and rng.random() < 0.6:
+                items.append(("i%d" % k, P.tolist(), w))          # the same integral curve as an int64 array
+                k += 1
     return items
 
 
@@ -222,7 +227,7 @@ def run(ctx):
     for cid, vs in rej.items():
         m = meta[cid]
         w = m["what"]
-        ctx.violation(vs[0][0], {"kind": "T", "points": m["points"], "what": w},
+        ctx.violation(vs[0][0], {"kind": "T", "points": m["points"], "what": w, "cid": cid},
                       {"verdict": vs[0][:6], "error": m.get("error")},
                       match="%s:%s" % (vs[0][0], w if isinstance(w, str) else ":".join(str(v) for v in w[:3])))
     ctx.sample({"binding": "T", "call": meta[cases[3]["id"]]["what"], "case": {k: v for k, v in cases[3].items() if k != "id"}})
@@ -231,7 +236,7 @@ def run(ctx):
 def replay(ctx, obj):
     c = obj["case"]
     w = c["what"]
-    case, m = _record(("replay", c["points"], tuple(w) if isinstance(w, list) else w))
+    case, m = _record((c.get("cid", "replay"), c["points"], tuple(w) if isinstance(w, list) else w))
     rej = ctx.trace("Trace_Detectors", [case])
     for cid, vs in rej.items():
         ctx.violation(vs[0][0], c, {"verdict": vs[0][:6], "error": m.get("error")})
